@@ -435,7 +435,7 @@ def _unit_paths(backend):
     return u.result()
 
 
-IDOPS = ("ins", "bulk2", "bulk2same", "repl", "del_oldest", "del_newest", "del_middle", "ins_old", "repl_move")
+IDOPS = ("ins", "bulk2", "bulk2same", "repl", "del_oldest", "del_newest", "del_middle", "ins_old", "repl_move", "recreate")
 
 
 def _unit_ids(args):
@@ -469,6 +469,13 @@ def _unit_ids(args):
                     e = Event(timestamp=T0 + timedelta(seconds=n), duration=1, data={"n": n})
                     fresh = [cont(e)]
                     b.insert(e)
+                elif op == "recreate":
+                    # the bucket is deleted and created again under the same id: what is inserted afterwards must
+                    # come back from THIS bucket (seeded C01-4: inserts bound a remembered row id of the old bucket)
+                    ds.delete_bucket("i")
+                    S.mk_bucket(ds, "i")
+                    b = ds["i"]
+                    model = {}
                 elif op == "ins_old":
                     # an event OLDER than everything stored: insertion order and time order now differ
                     # (seeded: id taken from the tail entry + a replace_last that sorts the list in place)
